@@ -517,6 +517,11 @@ class C01:
                         bad_ = show(x[1])
                     if x[0] == "comp" and x[1] == "set":
                         bad_ = "set comprehension"
+                    if x[0] == "call" and x[1][0] == "attr" and x[1][2] in ("values", "keys", "items") and x[1][1][0] == "comp" \
+                            and x[1][1][1] == "dict":
+                        bad_ = "a dict keyed by the element (repeated elements collapse)"
+                    if x[0] == "call" and x[1] == ("attr", ("builtin", "dict"), "fromkeys"):
+                        bad_ = "dict.fromkeys (repeated elements collapse)"
                     if x[0] == "sub" and x[2][0] == "slice" and x[2][3] != NONE:
                         bad_ = "stepped slice"
                 site_ = f"{owner_.module.relpath}:{ret_.lineno} {owner_.name}.{meth_}"
